@@ -193,7 +193,13 @@ def shrink(fam, case_line, orig_obs="", budget=25, seconds=45):
         for c, e, o in zip(cands, exp, obs):
             if "BADCASE" in e or "BADCASE" in o or "HARNESS-PANIC" in o:
                 continue
-            if families.project(fam, e) != families.project(fam, o) and keep_kind(orig_obs, o):
+            differs = families.project(fam, e) != families.project(fam, o)
+            if not differs and F.get("always_oracle"):
+                try:
+                    differs = F["oracle"](sexp.parse(c), sexp.parse(o), sexp.parse(e))[0] == "violation"
+                except Exception:
+                    differs = False
+            if differs and keep_kind(orig_obs, o):
                 pick = c
                 break
         if pick is None:
@@ -312,6 +318,14 @@ def check_property(pid, tier, seed):
                     unresolved.append((fam, c, e, o, "case not understood by model or harness"))
                     continue
                 agree = families.project(fam, e) == families.project(fam, o)
+                if agree and F.get("always_oracle"):
+                    # families judged on the implementation's behaviour alone (no model prediction)
+                    try:
+                        v0, _ = F["oracle"](pc, sexp.parse(o), sexp.parse(e))
+                    except Exception as ex:
+                        v0 = "violation"
+                        notes.append("oracle failed on case %d of %s: %s" % (i, fam, ex))
+                    agree = v0 != "violation"
                 if is_kf:
                     k = kf_cases[i - ncorpus]
                     if not agree and families.matches_signature(k, e, o):
